@@ -110,7 +110,17 @@ impl SourceFileAnalyzer {
                         defines_basic_line = true;
                     }
                 }
-                Err(err) => self.messages.push(DiagnosticMessage::Error(i, err.into())),
+                Err(err) => {
+                    // The error's range is in bytes and, for an illegal multi-byte
+                    // character, ends inside that character: extend it to the next
+                    // character boundary so that it can be used to slice the line.
+                    let mut range = err.string_range(line.len());
+                    while !line.is_char_boundary(range.end) {
+                        range.end += 1;
+                    }
+                    source_line_ranges.tokenization_error_range = Some(range);
+                    self.messages.push(DiagnosticMessage::Error(i, err.into()))
+                }
             }
             self.source_file_map
                 .add(basic_line_number, source_line_ranges, defines_basic_line);
